@@ -19,6 +19,9 @@ def EvOK : Ev → Prop
   | .eof => False
   | .err k => k = 0
 
+instance : DecidablePred EvOK := fun e => by
+  cases e <;> simp only [EvOK] <;> infer_instance
+
 /-- number of `deliver` answers in a script -/
 def delivers : List Ev → Nat
   | [] => 0
@@ -463,5 +466,277 @@ theorem pump_spec (clamp : Nat) (hclamp : 2 ≤ clamp) (t : Tuning) (block : Nat
         have := congrArg List.length h
         simp only [List.length_take, List.length_nil] at this
         omega
+
+/-! ### Sequences of pumps: the chunks tile the stream -/
+
+/-- the stream bytes a chunk list stands for -/
+def emitted (cs : List Chunk) : List UInt8 := (cs.map Chunk.bytes).flatten
+
+@[simp] theorem emitted_nil : emitted [] = [] := rfl
+@[simp] theorem emitted_cons (c : Chunk) (cs : List Chunk) : emitted (c :: cs) = c.bytes ++ emitted cs := by
+  simp [emitted]
+theorem emitted_append (a b : List Chunk) : emitted (a ++ b) = emitted a ++ emitted b := by
+  simp [emitted]
+
+/-- `Tiles off s cs rest`: starting at absolute offset `off` with `s` still to
+come, the chunks `cs` stand, one after the other, for a prefix of `s`, each
+satisfying `ChunkOK`; `rest` is what remains. -/
+inductive Tiles : Nat → List UInt8 → List Chunk → List UInt8 → Prop
+  | nil (off : Nat) (s : List UInt8) : Tiles off s [] s
+  | cons (off : Nat) (ch : Chunk) (after : List UInt8) (cs : List Chunk) (rest : List UInt8) :
+      ChunkOK ch (off + ch.bytes.length) after → Tiles (off + ch.bytes.length) after cs rest →
+      Tiles off (ch.bytes ++ after) (ch :: cs) rest
+
+theorem pumpSeq_tiles (clamp : Nat) (hclamp : 2 ≤ clamp) (t : Tuning) :
+    ∀ (blocks : List Nat) (c : Chunker) (m : Mem) (r : Reader), WellBehaved r →
+    ∃ chunks, (pumpSeq clamp t blocks c m r).1 = chunks.map PumpRes.ok ∧
+      chunks.length = blocks.length ∧
+      Tiles c.offset (c.buf ++ r.src) chunks
+        ((pumpSeq clamp t blocks c m r).2.1.buf ++ (pumpSeq clamp t blocks c m r).2.2.2.src) ∧
+      WellBehaved (pumpSeq clamp t blocks c m r).2.2.2 ∧
+      (pumpSeq clamp t blocks c m r).2.1.offset = c.offset + (emitted chunks).length := by
+  intro blocks
+  induction blocks with
+  | nil =>
+    intro c m r hwb
+    exact ⟨[], rfl, rfl, Tiles.nil _ _, hwb, by simp [pumpSeq]⟩
+  | cons b bs ih =>
+    intro c m r hwb
+    have hp := pump_spec clamp hclamp t b c m r hwb
+    obtain ⟨ch, hres, hsplit, hoff, hok⟩ := hp.ex
+    obtain ⟨chunks, h1, hl, h2, h3, h4⟩ := ih (pump clamp t b c m r).chunker (pump clamp t b c m r).mem
+      (pump clamp t b c m r).reader hp.wb
+    refine ⟨ch :: chunks, ?_, by simp [hl], ?_, ?_, ?_⟩
+    · simp only [pumpSeq, List.map_cons, h1, hres]
+    · simp only [pumpSeq]
+      rw [hsplit]
+      rw [hoff] at h2 hok
+      exact Tiles.cons _ _ _ _ _ hok h2
+    · simpa only [pumpSeq] using h3
+    · simp only [pumpSeq, emitted_cons, List.length_append]
+      rw [h4, hoff]; omega
+
+theorem map_ok_inj {a b : List Chunk} (h : a.map PumpRes.ok = b.map PumpRes.ok) : a = b := by
+  induction a generalizing b with
+  | nil => cases b with
+    | nil => rfl
+    | cons _ _ => simp at h
+  | cons x xs ih => cases b with
+    | nil => simp at h
+    | cons y ys =>
+      simp only [List.map_cons, List.cons.injEq, PumpRes.ok.injEq] at h
+      rw [h.1, ih h.2]
+
+theorem Tiles.stream_eq {off : Nat} {s : List UInt8} {cs : List Chunk} {rest : List UInt8}
+    (h : Tiles off s cs rest) : s = emitted cs ++ rest := by
+  induction h with
+  | nil => simp
+  | cons off ch after cs rest _ _ ih => rw [ih]; simp
+
+/-- The chunk in the middle of a tiling: what precedes it has been emitted,
+it is `ChunkOK` against the rest of the stream, and the tiling goes on. -/
+theorem Tiles.at {off : Nat} {s : List UInt8} {pre : List Chunk} {ch : Chunk} {post : List Chunk}
+    {rest : List UInt8} (h : Tiles off s (pre ++ ch :: post) rest) :
+    ∃ after, s = emitted pre ++ (ch.bytes ++ after) ∧
+      ChunkOK ch (off + (emitted pre).length + ch.bytes.length) after ∧
+      Tiles (off + (emitted pre).length + ch.bytes.length) after post rest := by
+  induction pre generalizing off s with
+  | nil =>
+    cases h with
+    | cons _ _ after _ _ hok ht => exact ⟨after, by simp, by simpa using hok, by simpa using ht⟩
+  | cons p pre ih =>
+    cases h with
+    | cons _ _ after _ _ hok ht =>
+      obtain ⟨after', h1, h2, h3⟩ := ih ht
+      refine ⟨after', by rw [h1]; simp, ?_, ?_⟩
+      · simpa [Nat.add_assoc] using h2
+      · simpa [Nat.add_assoc] using h3
+
+/-- Once the stream is exhausted every further chunk is `Eof`. -/
+theorem Tiles.of_nil' {off : Nat} {s : List UInt8} {cs : List Chunk} {rest : List UInt8}
+    (h : Tiles off s cs rest) (hs : s = []) : (∀ ch ∈ cs, ch = .eof) ∧ rest = [] := by
+  induction h with
+  | nil => subst hs; simp
+  | cons off ch after cs rest hok _ ih =>
+    have hb : ch.bytes = [] ∧ after = [] := List.append_eq_nil_iff.mp hs
+    obtain ⟨ih1, ih2⟩ := ih hb.2
+    refine ⟨?_, ih2⟩
+    intro x hx
+    rcases List.mem_cons.mp hx with rfl | hx
+    · cases x with
+      | eof => rfl
+      | sentinel o => simp [Chunk.bytes] at hb
+      | data o bs =>
+        simp only [ChunkOK] at hok
+        exact absurd hb.1 hok.2.1
+    · exact ih1 x hx
+
+theorem Tiles.of_nil {off : Nat} {cs : List Chunk} {rest : List UInt8} (h : Tiles off [] cs rest) :
+    (∀ ch ∈ cs, ch = .eof) ∧ rest = [] := h.of_nil' rfl
+
+/-- Every chunk other than `Eof` stands for at least one byte. -/
+theorem Tiles.length_le {off : Nat} {s : List UInt8} {cs : List Chunk} {rest : List UInt8}
+    (h : Tiles off s cs rest) (hne : ∀ ch ∈ cs, ch ≠ .eof) : cs.length + rest.length ≤ s.length := by
+  induction h with
+  | nil => simp
+  | cons off ch after cs rest hok _ ih =>
+    have := ih (fun x hx => hne x (by simp [hx]))
+    have hpos : 1 ≤ ch.bytes.length := by
+      cases ch with
+      | eof => exact absurd rfl (hne .eof (by simp))
+      | sentinel o => simp [Chunk.bytes]
+      | data o bs =>
+        simp only [ChunkOK] at hok
+        exact List.length_pos_iff.mpr hok.2.1
+    simp only [List.length_cons, List.length_append]
+    omega
+
+/-! ### The chunk sequence determines, and is determined by, the segments -/
+
+theorem segScan_sentinel (start : Nat) (cur after : List UInt8) :
+    segScan start cur (FE :: FD :: after) =
+      ⟨cur, start, start + cur.length⟩ :: segScan (start + cur.length + 2) [] after := by
+  simp [segScan]
+
+/-- Bytes that contain no stuff sequence, even with the byte that follows them,
+just extend the current piece. -/
+theorem segScan_data (bs : List UInt8) : ∀ (start : Nat) (cur after : List UInt8),
+    findStuff (bs ++ after.take 1) = none →
+    segScan start cur (bs ++ after) = segScan start (cur ++ bs) after := by
+  induction bs with
+  | nil => intro start cur after _; simp
+  | cons a bs ih =>
+    intro start cur after h
+    have e : (a :: bs) ++ after = a :: (bs ++ after) := rfl
+    rw [e]
+    cases hba : bs ++ after with
+    | nil =>
+      have hb : bs = [] ∧ after = [] := by simpa using hba
+      rw [hb.1, hb.2]
+      simp [segScan]
+      omega
+    | cons b t =>
+      have hnot : ¬ (a = FE ∧ b = FD) ∧ findStuff (bs ++ after.take 1) = none := by
+        cases bs with
+        | nil =>
+          simp only [List.nil_append] at hba
+          rw [hba] at h
+          simp only [List.cons_append, List.nil_append, List.take_succ_cons, List.take_zero] at h
+          rw [findStuff_cons_cons_none] at h
+          exact ⟨h.1, findStuff_short _ (by simp [List.length_take]; omega)⟩
+        | cons b' bs' =>
+          simp only [List.cons_append, List.cons.injEq] at hba
+          obtain ⟨rfl, _⟩ := hba
+          rw [show (a :: b' :: bs') ++ after.take 1 = a :: b' :: (bs' ++ after.take 1) from rfl,
+            findStuff_cons_cons_none] at h
+          exact h
+      have := ih start (cur ++ [a]) after hnot.2
+      rw [hba] at this
+      simp only [segScan, hnot.1, if_false]
+      rw [this]
+      simp
+
+/-- A tiling that uses up the stream regroups into exactly the scanned segments. -/
+theorem Tiles.regroup_eq {off : Nat} {s : List UInt8} {cs : List Chunk} {rest : List UInt8}
+    (h : Tiles off s cs rest) (hrest : rest = []) :
+    ∀ (start : Nat) (cur : List UInt8), off = start + cur.length →
+      regroup start cur cs = segScan start cur s := by
+  induction h with
+  | nil off s =>
+    intro start cur _
+    subst hrest
+    simp [regroup, segScan]
+  | cons off ch after cs rest hok _ ih =>
+    intro start cur hoff
+    cases ch with
+    | sentinel o =>
+      simp only [ChunkOK, Chunk.bytes] at hok
+      simp only [regroup, Chunk.bytes, List.cons_append, List.nil_append]
+      rw [segScan_sentinel]
+      have := ih hrest o [] (by simp [Chunk.bytes] at hok ⊢; omega)
+      rw [this]
+      have ho : o = start + cur.length + 2 := by simp at hok; omega
+      rw [ho]
+    | eof =>
+      simp only [regroup, Chunk.bytes, List.nil_append]
+      exact ih hrest start cur (by simp [Chunk.bytes]; exact hoff)
+    | data o bs =>
+      simp only [ChunkOK] at hok
+      simp only [regroup, Chunk.bytes]
+      rw [segScan_data bs start cur after hok.2.2]
+      exact ih hrest start (cur ++ bs) (by simp [Chunk.bytes]; omega)
+
+/-! ### The arena only decides where the bytes live -/
+
+theorem readChained_arena (t t' : Tuning) (m m' : Mem) (carry : List UInt8) (r : Reader) (count : Nat) :
+    (readChained t m carry r count).1 = (readChained t' m' carry r count).1 := by
+  unfold readChained
+  split
+  · rfl
+  · simp only [readN_fst]
+
+theorem refill_arena (t t' : Tuning) (count : Nat) : ∀ (fuel : Nat) (c : Chunker) (m m' : Mem)
+    (r : Reader) (reqs : List Nat),
+    (refill t count fuel c m r reqs).1 = (refill t' count fuel c m' r reqs).1 ∧
+    (refill t count fuel c m r reqs).2.2 = (refill t' count fuel c m' r reqs).2.2 := by
+  intro fuel
+  induction fuel with
+  | zero => intro c m m' r reqs; simp [refill]
+  | succ fuel ih =>
+    intro c m m' r reqs
+    unfold refill
+    by_cases h2 : 2 ≤ c.buf.length
+    · simp [h2]
+    · simp only [h2, if_false]
+      rw [readChained_arena t t' m m' c.buf r count]
+      generalize (readChained t' m' c.buf r count).1 = o
+      cases o.res with
+      | err k => simp
+      | ok got =>
+        simp only
+        split
+        · split <;> simp
+        · exact ih _ _ _ _ _
+
+theorem pump_arena (clamp : Nat) (t t' : Tuning) (block : Nat) (c : Chunker) (m m' : Mem) (r : Reader) :
+    (pump clamp t block c m r).res = (pump clamp t' block c m' r).res ∧
+    (pump clamp t block c m r).chunker = (pump clamp t' block c m' r).chunker ∧
+    (pump clamp t block c m r).reader = (pump clamp t' block c m' r).reader ∧
+    (pump clamp t block c m r).reqs = (pump clamp t' block c m' r).reqs := by
+  have h := refill_arena t t' (max block clamp) 3 c m m' r []
+  unfold pump
+  simp only
+  generalize refill t (max block clamp) 3 c m r [] = a at *
+  generalize refill t' (max block clamp) 3 c m' r [] = b at *
+  obtain ⟨a1, a2, a3, a4⟩ := a
+  obtain ⟨b1, b2, b3, b4⟩ := b
+  simp only [Prod.mk.injEq] at h
+  obtain ⟨rfl, rfl, rfl⟩ := h
+  cases a1 with
+  | done res c' => simp
+  | filled c' =>
+    simp only
+    split
+    · simp
+    · split
+      · simp
+      · split <;> simp
+
+theorem pumpSeq_arena (clamp : Nat) (t t' : Tuning) : ∀ (blocks : List Nat) (c : Chunker) (m m' : Mem)
+    (r : Reader),
+    (pumpSeq clamp t blocks c m r).1 = (pumpSeq clamp t' blocks c m' r).1 ∧
+    (pumpSeq clamp t blocks c m r).2.1 = (pumpSeq clamp t' blocks c m' r).2.1 ∧
+    (pumpSeq clamp t blocks c m r).2.2.2 = (pumpSeq clamp t' blocks c m' r).2.2.2 := by
+  intro blocks
+  induction blocks with
+  | nil => intro c m m' r; simp [pumpSeq]
+  | cons b bs ih =>
+    intro c m m' r
+    obtain ⟨h1, h2, h3, _⟩ := pump_arena clamp t t' b c m m' r
+    have := ih (pump clamp t b c m r).chunker (pump clamp t b c m r).mem (pump clamp t' b c m' r).mem
+      (pump clamp t b c m r).reader
+    simp only [pumpSeq]
+    rw [← h1, ← h2, ← h3]
+    exact ⟨by rw [this.1], this.2.1, this.2.2⟩
 
 end Woodpile.Stream
